@@ -114,6 +114,35 @@ def mixed_family(rng, with_header):
             "cells": cells, "header": header}
 
 
+def awkward_names(t, rng):
+    """header names that are NOT distinct / not innocent: a repeated name followed by more input columns, a name equal
+    to the default name of an unnamed column (X<i>), names of shipped primitives, empty names.  Only the names of the
+    numeric input columns are touched, so the table stays in the unambiguous header family."""
+    num = [c for c in range(1, t["ncols"]) if t["kinds"][c] == "num"]
+    if len(num) < 2:
+        return
+    h = t["header"]
+    kind = rng.randrange(6)
+    a, b = num[0], num[1]
+    if kind == 0:                                  # repeated name, more columns after it
+        h[b] = h[a]
+    elif kind == 1:                                # unnamed column, then its default name used explicitly
+        h[a] = ""
+        h[b] = "X%d" % a
+    elif kind == 2:                                # explicit default-looking name first, unnamed column later
+        h[a] = "X%d" % b
+        h[b] = ""
+    elif kind == 3:                                # names of shipped primitives
+        for c in num:
+            h[c] = rng.choice(["FADD", "FSUB", "FMUL", "SIFE", "FLN", "FABS"])
+    elif kind == 4:                                # all the same
+        for c in num:
+            h[c] = h[a]
+    else:                                          # several empty names
+        for c in num[:-1]:
+            h[c] = ""
+
+
 def table_text(t, rng, tame=False):
     rows = ([t["header"]] if t["header"] is not None else []) + t["cells"]
     if tame:
@@ -162,6 +191,12 @@ def gen_cases(ck):
     t0 = {"delim": 44, "ncols": 4, "nrows": 2, "out": 0, "out_kind": "num", "kinds": ["num", "num", "void", "num"],
           "cells": [["1", "2", "", "4"], ["5", "6", "", "8"]], "header": None}
     cases.append({"mode": "prob", "table": t0, "line": "prob fixed %s 0" % cc.hx("1,2,,4\n5,6,,8\n")})
+    # repeated / default-colliding column names through src_problem (variables are identified by position)
+    for hd in (["y", "a", "a", "b"], ["y", "", "X1", "c"], ["y", "X2", "", "c"], ["y", "FADD", "FADD", "FADD"]):
+        tn = {"delim": 44, "ncols": 4, "nrows": 3, "out": 0, "out_kind": "num", "kinds": ["num"] * 4,
+              "cells": [["1", "2", "3", "4"], ["5", "6", "7", "8"], ["9", "10", "11", "12"]], "header": hd}
+        cases.append({"mode": "prob", "table": tn,
+                      "line": "prob fixed %s 0" % cc.hx("\n".join(",".join(r) for r in [hd] + tn["cells"]) + "\n")})
     # the witness of C09_has_header_named_numeric_refuted: a name over 1e5 / 1E5; sniffed vs explicit header
     t1 = {"delim": 44, "ncols": 1, "nrows": 2, "out": 0, "out_kind": "num", "kinds": ["num"],
           "cells": [["1e5"], ["1E5"]], "header": ["Abc"]}
@@ -240,6 +275,8 @@ def gen_cases(ck):
     for _ in range(150 * n):
         cl = rng.random() < 0.4
         t = tame_family(rng, True if cl else rng.random() < 0.5, classification=cl, void=True)
+        if t["header"] is not None and rng.random() < 0.6:
+            awkward_names(t, rng)
         txt = table_text(t, rng, tame=True)
         cases.append({"mode": "prob", "table": t, "line": "prob fixed %s %d" % (cc.hx(txt), rng.randint(0, 1))})
     # 5. XRFF
